@@ -272,6 +272,74 @@ def classify_rejects(rej_evs, dpath, tag="c09cl"):
     return out
 
 
+def uses_key_or_var(e):
+    if isinstance(e, dict):
+        if e.get("op") == "var" or (e.get("op") == "fn" and e.get("name") in ("key", "current")):
+            return True
+        return any(uses_key_or_var(v) for v in e.values())
+    if isinstance(e, list):
+        return any(uses_key_or_var(v) for v in e)
+    return False
+
+
+def key_use_family(res, wd, rng, quick, docs, flats, dpath, pats):
+    """xsl:key match=P use="'v'": key('k','v') must be exactly the nodes of the document that match P (XSLT 12.2) - the second
+    place where patterns are matched, with its own walk over the document (elements, their attributes, the other children)"""
+    import subprocess
+    from xml.sax.saxutils import quoteattr
+    kwd = os.path.join(wd, "keyuse"); os.makedirs(kwd)
+    pats = [p_ for p_ in pats if not uses_key_or_var(p_)]
+    if quick:
+        pats = pats[rng.randrange(3)::3]
+    cases, metas = [], []
+    for k, p_ in enumerate(pats):
+        for d in rng.sample(range(len(docs)), 2 if quick else 4):
+            cdir = os.path.join(kwd, "case%d" % len(cases)); os.makedirs(cdir)
+            open(os.path.join(cdir, "main.xsl"), "w").write(
+                '<xsl:stylesheet version="1.0" xmlns:xsl="http://www.w3.org/1999/XSL/Transform" xmlns:p="urn:u" xmlns:q="urn:v">'
+                '<xsl:key name="k" match=%s use="\'v\'"/><xsl:template match="/"><xsl:variable name="r" select="key(\'k\',\'v\')"/></xsl:template></xsl:stylesheet>'
+                % quoteattr(xpgen.render(p_)))
+            open(os.path.join(cdir, "in.xml"), "w").write(c02.doc_xml(docs[d]))
+            cases.append({"id": len(cases), "dir": cdir, "trace": "none", "select": True})
+            metas.append((p_, d))
+    exe = vlib.build_harness("xslt")
+    nsh = vlib.NCPU
+    procs = []
+    for s_ in range(nsh):
+        ch = cases[s_::nsh]
+        if ch:
+            cp = os.path.join(kwd, "cases-%d.ndjson" % s_); vlib.write_ndjson(cp, ch)
+            rp = os.path.join(kwd, "trace-%d.ndjson" % s_)
+            procs.append((ch, rp, subprocess.Popen([exe, cp], stdout=open(rp, "w"), stderr=subprocess.PIPE)))
+    evs = []
+    for ch, rp, pr in procs:
+        _, err = pr.communicate(timeout=3000)
+        by, cur = {}, None
+        for ev in vlib.read_ndjson(rp):
+            if ev["e"] == "Reset":
+                cur = by.setdefault(ev["id"], [])
+            cur.append(ev)
+        for c in ch:
+            p_, d = metas[c["id"]]
+            es = by.get(c["id"]) or []
+            sample = {"xsl": open(os.path.join(c["dir"], "main.xsl")).read(), "xml": c02.doc_xml(docs[d])}
+            if not es or es[-1]["e"] != "Done":
+                res.violation("transformation process died in the key-use family (rc=%s): %s" % (pr.returncode, (err or b"").decode()[-200:]), [sample]); continue
+            sel = [e for e in es if e["e"] == "S" and e["el"] == "xsl:variable" and e["val"]["t"] == "ns"]
+            ev = {"e": "Match", "doc": d + 1, "text": "xsl:key match=" + xpgen.render(p_), "pat": xpgen.strip_render_only(p_), "sample": sample}
+            if es[-1]["status"] != 0 or len(sel) != 1:
+                ev["error"] = (es[-1].get("msg") or "no selection event")[:200]
+            else:
+                ev["matched"] = [[d + 1, x[1], 0] for x in sel[0]["val"]["v"]]
+            evs.append(ev)
+    rejects, st = vlib.tlc_validate_sharded(TRACE, [{k: v for k, v in e.items() if k != "sample"} for e in evs], tag="c09key", env={"DOCS": dpath}, stateless=True, timeout=3000)
+    for rj in rejects:
+        ev = evs[rj["line"]]
+        res.violation("%s on doc %s: %s" % (ev["text"], ev["doc"], rj["msg"][:300]), [dict(ev, flatdoc=flats[ev["doc"] - 1], xml=ev["sample"]["xml"])])
+    res.notes["key_use_cases"] = len(evs)
+    return len(evs), len(evs) - len(rejects)
+
+
 def run(res, tier, seed):
     from concurrent.futures import ThreadPoolExecutor
     rng = random.Random(seed)
@@ -326,9 +394,12 @@ def run(res, tier, seed):
         for r_ in stale[:5]:
             vlib.log("C09: PatternMatcherImpl differs from the real matcher where the definition holds: %s on doc %s: %s" % (
                 evs[r_["line"]]["text"], evs[r_["line"]]["doc"], r_["msg"][:200]))
+    # 4. the same patterns where xsl:key uses them (KeyTable walks the document itself and asks the matcher node by node)
+    nk, nk_ok = key_use_family(res, wd, rng, quick, docs, flats, dpath, systematic() + [g.pattern() for _ in range(100 if quick else 3000)])
+    res.cov["evaluations"] += nk
     r, label = mcf.result()
     res.add_mc(r, label)
-    res.cov["traces_validated_against_impl"] = len(evs) - len(rejects)
+    res.cov["traces_validated_against_impl"] = len(evs) - len(rejects) + nk_ok
     res.cov["distinct_nontrivial"] = len({vlib.canon_hash([e["text"], e["doc"]]) for e in evs if e.get("matched")})
     res.cov["rule"] = ("systematic two/three-step patterns over {a,b,*,node(),text()} x {/,//} x positional predicates, attribute/comment/PI/text/root patterns, "
                        "+ the %d patterns of the model-checked family (MC_Pattern) + %d seeded random patterns (1-4 steps, '//' anywhere, positional/boolean/nested-path "
